@@ -215,6 +215,11 @@ func (evpool *Pool) CheckEvidence(evList types.EvidenceList) error {
 			}
 
 			evpool.logger.Info("Check evidence: verified evidence of byzantine behavior", "evidence", ev)
+		} else if evpool.isExpired(ev.Height(), ev.Time()) {
+			// Pending evidence is pruned lazily; once it has expired by both
+			// limits it must not be accepted in a block even though it was
+			// verified when it came in.
+			return &types.ErrInvalidEvidence{Evidence: ev, Reason: errors.New("evidence has expired")}
 		}
 
 		// check for duplicate evidence. We cache hashes so we don't have to work them out again.
